@@ -94,6 +94,16 @@ def case_strategy():
                 vals = draw(st.lists(st.sampled_from(G.LIT_POOL), min_size=1, max_size=2, unique_by=repr))
             sibs.append(["lit", vals])
         other = [draw(target_strategy()) for _ in range(draw(st.sampled_from([0, 0, 1, 2])))]
+        # the same value check under another bound is a different type (list[T] / Sequence[T], dict / Mapping,
+        # Dependent[dict, HasKey[...]] / HasKey[...])
+        twin = {"listof": "seqof", "seqof": "listof", "dictof": "mapof", "mapof": "dictof"}
+        if t[0] in twin and draw(st.integers(0, 2)) == 0:
+            tw = [twin[t[0]]] + t[1:]
+            other.insert(draw(st.integers(0, len(other))), tw)
+            if draw(st.booleans()):
+                other, t = [t] + [x for x in other if x is not tw], tw
+        elif t[0] == "haskey" and draw(st.integers(0, 2)) == 0:
+            other.insert(0, ["rebound", "dict", t])
         static = draw(st.sampled_from([None, None, ["cls", "int"], ["cls", "str"], ["cls", "tuple"], ["cls", "list"],
                                        ["cls", "Mapping"], ["cls", "Sequence"]]))
         two_pos = draw(st.integers(0, 4)) == 0
@@ -165,7 +175,9 @@ def run_case(spec):
         T = normalize_type(prog.anns["0_k0" if spec.get("kwmode") else "0_a0"], None)
         tspec = spec["target"]
         corpus = G.value_corpus(KN) + [["tuple", [["tuple", [["int", 1]]]]], ["tuple", [["int", 1], ["str", "a"], ["int", 2]]],
-                                        ["str", "hello"], ["dict", [[["str", "b"], ["int", 2]]]]]
+                                        ["str", "hello"], ["dict", [[["str", "b"], ["int", 2]]]],
+                                        ["mproxy", [[["str", "a"], ["int", 1]]]], ["mproxy", [[["int", 1], ["str", "a"]]]],
+                                        ["mproxy", []]]
         seconds = [None]
         if spec["second"]:
             seconds = [["int", 0], ["int", 1], ["int", 5], ["str", "q"]]
